@@ -1,7 +1,7 @@
 """C17 — External address is updated only by a clear majority."""
 import re
 
-from analysis import (Prov, Guards, fmt, fmt_short, walk, roots, short, comparison, find_calls, callee_matches,
+from analysis import (option_edges, Prov, Guards, fmt, fmt_short, walk, roots, short, comparison, find_calls, callee_matches,
                       must_pass, named_switches, const_int_of, cmp_intervals, normalised_cmp)
 from facts import AnchorError, strip_closure
 from harness import Rule, guarded
@@ -156,6 +156,28 @@ def r2(ctx):
         if (t.callee() or "") == IV + "insert":
             rule.check(fmt_short(pv.operand(t.args[1])) == "node_id" and fmt_short(pv.operand(t.args[2])) == "socket", "vote = (node_id, socket) of this PONG",
                        "vote|args", "handle_ip_vote_from_pong votes (%s, %s)" % (fmt_short(pv.operand(t.args[1])), fmt_short(pv.operand(t.args[2]))), loc=hv.loc(t.line))
+    # every eligible PONG is recorded: the vote is skipped only when voting is off (ip_votes None, should_count_ip_vote false) or the peer
+    # is not eligible - in particular a vote that *confirms* the advertised address must overwrite the peer's earlier, different vote
+    gv = Guards(hv, pv, facts)
+    ins_blocks = [bi for bi, t in hv.calls() if (t.callee() or "") == IV + "insert"]
+    skip = []
+    _some, _none = option_edges(gv, lambda x: fmt_short(x).endswith("self.ip_votes") or fmt_short(x) == "Option::as_mut(self.ip_votes)")
+    skip += _none
+    for bi, t, e in gv.switches():
+        inner, neg = e, False
+        while inner[0] == "un" and inner[1] == "Not":
+            inner, neg = inner[2], not neg
+        if inner[0] == "discr":
+            continue
+        txt = fmt_short(inner)
+        if "should_count_ip_vote" in txt or "require_more_ip_votes" in txt or "is_connected_and_outgoing" in txt:
+            f_, tr_ = gv.bool_edges(bi)
+            skip.append((bi, tr_ if neg else f_))
+    rr = hv.reachable(0, removed_edges=skip, removed_blocks=ins_blocks)
+    rule.check(bool(ins_blocks) and bool(skip) and not any(x in rr for x in hv.return_blocks()),
+               "handle_ip_vote_from_pong records the vote of every eligible PONG (skipped only if voting is off or the peer is not eligible)", "vote|not-recorded",
+               "handle_ip_vote_from_pong can return for an eligible PONG without recording its vote: the peer's earlier vote (for another address) keeps counting although "
+               "its latest report differs", loc=hv.loc(hv.line))
     hr = facts.one(re.escape(SV) + "handle_rpc_response")
     rule.analysed(hr)
     pr = Prov(hr, facts)
